@@ -107,9 +107,10 @@ protected:
 	int volume;
 	int mask;
 
-	static uint enveloptable[16][64];
+	// the level tables depend on this PSG's volume setting: per chip (they were static and rewritten by every chip)
+	uint enveloptable[16][64];
+	int EmitTable[32];
 	static uint noisetable[noisetablesize];
-	static int EmitTable[32];
 };
 
 #endif // PSG_H
